@@ -1,0 +1,12 @@
+//go:build verif
+
+// Contracts for package glob, checked by /verif/gvc (contract-based deductive
+// verification).  This file is comment-only: with the build tag off it does
+// not exist for the compiler, with it on it adds nothing but a package clause.
+package glob
+
+//@ func Glob(pattern, dst string, ignoreMatchers bool) (files map[string]string, err error)
+//@   ensures [C06] loud: implies(err == nil, flag("failed") == old(flag("failed")))
+//@   ensures [C11 C12] fresh-result: implies(err == nil, fresh(files))
+//@   ensures [C07] no-clock-no-env: flag("clockRead") == old(flag("clockRead")) && flag("envRead") == old(flag("envRead"))
+//@   modifies [C11 C12] flag("failed")
